@@ -68,9 +68,44 @@ func newDataReader(c *Conn) *dataReader {
 	return dr
 }
 
+// States of the dataReader.
+const (
+	stateBeginLine = iota // beginning of line; initial state; must be zero
+	stateDot              // read . at beginning of line
+	stateDotCR            // read .\r at beginning of line
+	stateCR               // read \r (possibly at end of line)
+	stateData             // reading data in middle of line
+	stateEOF              // reached .\r\n end marker line
+)
+
+// skipEndMarker reports whether the message is complete, consuming what is
+// left of its end marker if nothing else precedes the end. A message that has
+// used up the size limit is only too large if more of it follows.
+func (r *dataReader) skipEndMarker() bool {
+	var rest string
+	switch r.state {
+	case stateBeginLine:
+		rest = ".\r\n"
+	case stateDot:
+		rest = "\r\n"
+	case stateDotCR:
+		rest = "\n"
+	case stateEOF:
+		return true
+	default:
+		return false
+	}
+	if p, err := r.r.Peek(len(rest)); err != nil || string(p) != rest {
+		return false
+	}
+	r.r.Discard(len(rest))
+	r.state = stateEOF
+	return true
+}
+
 func (r *dataReader) Read(b []byte) (n int, err error) {
 	if r.limited {
-		if r.n <= 0 {
+		if r.n <= 0 && !r.skipEndMarker() {
 			return 0, ErrDataTooLarge
 		}
 		if int64(len(b)) > r.n {
@@ -83,14 +118,6 @@ func (r *dataReader) Read(b []byte) (n int, err error) {
 
 	// Run data through a simple state machine to
 	// elide leading dots and detect End-of-Data (<CR><LF>.<CR><LF>) line.
-	const (
-		stateBeginLine = iota // beginning of line; initial state; must be zero
-		stateDot              // read . at beginning of line
-		stateDotCR            // read .\r at beginning of line
-		stateCR               // read \r (possibly at end of line)
-		stateData             // reading data in middle of line
-		stateEOF              // reached .\r\n end marker line
-	)
 	for n < len(b) && r.state != stateEOF {
 		var c byte
 		c, err = r.r.ReadByte()
